@@ -76,6 +76,11 @@ scanIsContinued(String line)
       }
     }
     else {
+      /* The rest of the line is a comment: brackets and quotes in it do not count. */
+      if ((line[i] == '-' && line[i+1] == '-') ||
+	  (line[i] == '+' && line[i+1] == '+'))
+	break;
+
       switch (line[i]) {
       case '_': 
 	sawEscape = true;
